@@ -272,4 +272,32 @@ def opFlipX (args : List String) (impl : String) : Verdict :=
       nontrivial := tree.blocks > 2 }
   | _ => bad "flipx"
 
+/-- `glue blob bs`: length-prefixed / suffixed outboards, `map_data`, accessors, item predicates;
+spec: LE size ++ `Spec.preOutboard`, `Spec.postOutboard` ++ LE size, at bs 0 the prefixed form is the bao
+crate's outboard; the honest full decode has `blocks - 1` parents and `blocks` leaves -/
+def opGlue (args : List String) (impl : String) : Verdict :=
+  match args with
+  | [b, bs] =>
+    match blob b, bs.toNat? with
+    | some d, some bs =>
+      let tree : Tree := ⟨d.length, bs⟩
+      let le8 : List UInt8 := (List.range 8).map fun i => UInt8.ofNat (d.length / 256 ^ i % 256)
+      let pre := outboard hf d tree ⟨.preMem, [], tree, zerosN tree.outboardSize⟩
+      let post := outboardPostOrder hf d tree
+      let withPrefix := le8 ++ pre.sink.data
+      let withSuffix := post.sink ++ le8
+      let baoFull := if bs == 0 then s!"{dig withPrefix}:1" else "-"
+      let st := intactStore .preMem d bs
+      let run := decodeAll hf .sync st.root tree [0] (encodeRangesValidated hf .sync d st [0]).out
+      let np := (run.items.filter fun i => match i with | .parent .. => true | _ => false).length
+      let nl := run.items.length - np
+      let m := s!"{dig withPrefix} {dig withSuffix} {baoFull} 111 {np} {nl}"
+      let blocks := Spec.nBlocks d.length bs
+      let spec := s!"{dig (le8 ++ Spec.preOutboard hf d bs)} {dig (Spec.postOutboard hf d bs ++ le8)} " ++
+        (if bs == 0 then s!"{dig (le8 ++ Spec.preOutboard hf d 0)}:1" else "-") ++ s!" 111 {blocks - 1} {blocks}"
+      { model := m, specFail := if impl == spec then none else some s!"outboard conversions / accessors ({spec})",
+        nontrivial := blocks > 1 }
+    | _, _ => bad "glue"
+  | _ => bad "glue"
+
 end Bao.Ops
